@@ -37,11 +37,11 @@ def _denovo_assembler(genotype: A[i1, 2], inbreeding: float, reads: A[f8, 3], re
         invariant(0 <= i, i <= steps, genotype_trace.shape == (1, steps, P, N), llk_trace.shape == (1, steps), genotypes.shape == (n_temps, P, N), len(llks) == n_temps, n_temps == len(temperatures), ploidy == P, n_base == N)
         invariant(forall(0, n_temps, lambda a: llks[a] == LLK(reads, CN, genotypes[a], P, N, len(reads)) and VALIDG(genotypes[a], n_alleles, P, N)))
         invariant(forall(0, i, lambda s: llk_trace[0, s] == LLK(reads, CN, genotype_trace[0, s], P, N, len(reads))))
-        invariant(implies(cache is not None, AMOK(cache) and cache[2] == P * N and forall(0, N, lambda y: n_alleles[y] <= cache[0].shape[1])))
+        invariant(implies(cache is not None, AMOK(cache, len(cache[0]), cache[0].shape[1], len(cache[1])) and cache[2] == P * N and forall(0, N, lambda y: n_alleles[y] <= cache[0].shape[1])))
         invariant(implies(cache is not None, COH(cache, reads, CN, P, N, len(reads))))
     with loop(2):
         invariant(0 <= t, t <= n_temps)
         invariant(forall(0, n_temps, lambda a: llks[a] == LLK(reads, CN, genotypes[a], P, N, len(reads)) and VALIDG(genotypes[a], n_alleles, P, N)))
-        invariant(implies(cache is not None, AMOK(cache) and cache[2] == P * N and forall(0, N, lambda y: n_alleles[y] <= cache[0].shape[1])))
+        invariant(implies(cache is not None, AMOK(cache, len(cache[0]), cache[0].shape[1], len(cache[1])) and cache[2] == P * N and forall(0, N, lambda y: n_alleles[y] <= cache[0].shape[1])))
         invariant(implies(cache is not None, COH(cache, reads, CN, P, N, len(reads))))
         invariant(implies(t >= 1, genotype.shape == (P, N) and val(genotype) == genotypes[t - 1] and llk == llks[t - 1]))
